@@ -24,6 +24,9 @@ def run(tier, seed):
     for _ in range(n):
         tg = gen_trees.TGen(rnd)
         body = [tg.generic(1), tg.control(0), tg.control(0)]
+        # names that use every ASCII letter (both ends of the alphabet), so that every letter's case folding is observable
+        body.append(('e', 'quiz', {'size': '1', 'data-zoom': 'x', 'abcdefghijklmnopqrstuvwxyz': 'v', 'az': 'AZ'},
+                     [('e', 'jkqvwxyz', {'title': 'z'}, [])]))
         if rnd.random() < 0.6:
             # foreign content with mixed-case names (html5lib gives these elements the SVG / MathML namespace and its own
             # spelling of the names): in an HTML document they still match regardless of ASCII case
